@@ -10,13 +10,16 @@ class C02(Prop):
     lean_module = "Stgutg.Props.C02"
     gen = ["schema", "registry", "templates", "nasie", "naslayout", "nassetters", "extract", "script", "tables"]
     theorems = ["Stgutg.Props.C02." + t for t in [
-        "C02_prerequisites", "C02_numbers_are_min", "C02_lifecycle", "C02_ids", "pduId_range", "C02_one_psi", "C02_reports", "C02_no_list_is_an_error", "C02_count_unique", "C02_protected_step_accepted", "cheapPrims_ok", "C02_accepted_witness",
+        "C02_generated_bounds", "genNumbers_eq", "C02_prerequisites", "C02_numbers_are_min", "C02_lifecycle", "C02_ids", "pduId_range", "C02_one_psi", "C02_reports", "C02_no_list_is_an_error", "C02_count_unique", "C02_protected_step_accepted", "cheapPrims_ok", "C02_accepted_witness",
     ]] + ["Stgutg.Proofs.Emulator." + t for t in ["forUes_ok", "registerLoop_ok", "ueRun_counts", "estimate_next"]]
     domains = [Domain("convo-life", 8, 40, tags="verif")]
     rule = ("convo-life: whole test-mode conversations (NG Setup, registration, PDU session establishment, service request, release, "
             "de-registration for 1..3 UEs, thorough ..6) against the scripted AMF of harness/peer over a SOCK_SEQPACKET socketpair: "
             "(proc) the procedures called in-process by a child of the harness, which prints what EstablishPDU returns (UE IP, "
-            "TEID, UPF IP), and (bin) the real stgutgmain -t. Repetition counts equal to, below and above the UE count, zero and "
+            "TEID, UPF IP), and (bin) the real stgutgmain -t; (hist) one UE registered, then EstablishPDU called 270 times in a row for "
+            "it (thorough: 600): uplink NAS COUNT 0..271 under one key, sequence number wrap and overflow counter through the real "
+            "NASEncode. Count vectors through the real binary with two or more dependent counts above / at / below N at once (the "
+            "clamps live in main). Repetition counts equal to, below and above the UE count, zero and "
             "negative; IMSI tails in 1..15, 16..255, 256..9999 and 0 (the classes of the repaired finding F14); network-assigned "
             "UE IP / TEID (incl. 0, 1, 2^31, 2^32-1) / UPF IP / AMF-UE-NGAP-ID (0, 2^32, 2^40-1, ...). Compared with the Lean model: "
             "exit status, banner, every uplink octet, every reported triple. The Lean reference AMF/SMF judges the "
@@ -31,7 +34,7 @@ class C02(Prop):
                    "fewer than 2^24 protected uplink messages per UE and key",
                    "configuration as for C01; S-NSSAI SD is 6 hexadecimal digits"]
     partial_note = ("Proved for all counts / configurations: the Min clamps (C02_prerequisites, all integers), the structure of a "
-                    "completed run (C02_lifecycle: UE i is CreateUE(imsi, i), no loop indexes beyond the list, no procedure "
+                    "completed run (the clamps are read from the source by gen script on every run: C02_generated_bounds; C02_lifecycle: UE i is CreateUE(imsi, i), no loop indexes beyond the list, no procedure "
                     "changes a UE's SUPI / RAN-UE-NGAP-ID / credentials / AMF-UE-NGAP-ID), distinct ids (C02_ids), COUNT uniqueness "
                     "below 2^24 with receiver recovery (C02_count_unique), the reference AMF's NAS-security clause accepts the next "
                     "message (C02_protected_step_accepted), reported = encoded values for spec-built setup requests (C02_reports). "
